@@ -777,15 +777,30 @@ class _Bare(C):
         raise AttributeError(name)
 
 
+class _NS:
+    pass
+
+
 for inp, stubs, bind in cases:
-    obj = C.__new__(_Bare)
-    held = {}
-    for k, v in inp.items():
-        if k.startswith("self."):
-            held[k] = copy.deepcopy(v)
-            object.__setattr__(obj, k[5:], held[k])
+    held = {k: copy.deepcopy(v) for k, v in inp.items() if k.startswith("self.")}
+    # a typed input that is a property of the class (Network.adjacency ...) is shadowed by a plain class attribute of a
+    # per-case subclass: the region reads the value, the property's own code is not part of the region
+    shadow = {k[5:]: v for k, v in held.items() if isinstance(inspect.getattr_static(C, k[5:], None), property)}
+    obj = C.__new__(type("_BareCase", (_Bare,), shadow) if shadow else _Bare)
+    for k, v in held.items():
+        if k[5:] not in shadow:
+            object.__setattr__(obj, k[5:], v)
     for mname, src in stubs.items():
-        object.__setattr__(obj, mname, (lambda a: (lambda *x, **y: a.copy()))(inp[src]))
+        fn_ = (lambda a: (lambda *x, **y: a.copy()))(inp[src])
+        if "." in mname:            # self.<component>.<method>(): a stand-in component object carrying the stub
+            comp, meth_ = mname.split(".", 1)
+            holder = getattr(obj, comp, None) if comp in vars(obj) else None
+            if holder is None:
+                holder = _NS()
+                object.__setattr__(obj, comp, holder)
+            setattr(holder, meth_, fn_)
+        else:
+            object.__setattr__(obj, mname, fn_)
     kwargs = {}
     is_static = isinstance(inspect.getattr_static(C, meth), staticmethod)
     for pn in list(inspect.signature(F).parameters)[(0 if is_static else 1):]:
